@@ -40,6 +40,10 @@ pub struct StepObs {
   pub ret: Val,
   pub fault: String,
   pub cnt: Vec<i64>,
+  /// tasks the executor still holds
+  pub live: i64,
+  /// durations requested from the timer function by this stimulus
+  pub tm: Vec<i64>,
 }
 
 impl StepObs {
@@ -59,6 +63,8 @@ impl StepObs {
       ret: Val::from_json(&j["ret"]),
       fault: j["fault"].as_str().unwrap_or("").to_string(),
       cnt: j["cnt"].as_array().map(|a| a.iter().map(|x| x.as_i64().unwrap()).collect()).unwrap_or_default(),
+      live: j["live"].as_i64().unwrap_or(0),
+      tm: j["tm"].as_array().map(|a| a.iter().map(|x| x.as_i64().unwrap()).collect()).unwrap_or_default(),
     }
   }
   pub fn to_json(&self) -> J {
@@ -67,12 +73,16 @@ impl StepObs {
       "ret": self.ret.to_json(),
       "fault": self.fault,
       "cnt": self.cnt,
+      "live": self.live,
+      "tm": self.tm,
     })
   }
 }
 
 thread_local! {
   static LAST_PANIC: RefCell<String> = RefCell::new(String::new());
+  /// panics so far (the scheduler wrapper of the crate catches the panics of task bodies)
+  static PANICS: RefCell<u64> = RefCell::new(0);
 }
 
 pub fn install_panic_hook() {
@@ -86,6 +96,7 @@ pub fn install_panic_hook() {
     };
     let loc = info.location().map(|l| format!(" at {}:{}", l.file(), l.line())).unwrap_or_default();
     LAST_PANIC.with(|p| *p.borrow_mut() = format!("{msg}{loc}"));
+    PANICS.with(|p| *p.borrow_mut() += 1);
   }));
 }
 
@@ -162,6 +173,7 @@ macro_rules! runner {
 
     impl $name {
       pub fn new(prog: Vec<Ast>, cfg: &Cfg) -> $name {
+        crate::vsched::reset();
         let sh = Shared::new();
         let env = $env {
           sh,
@@ -317,6 +329,27 @@ macro_rules! runner {
             self.multis.get_mut(&((s.a - 1) as usize)).expect("mappend: not a composite").append(child);
             Val::U
           }
+          "adv" => {
+            crate::vsched::advance(s.a);
+            sh.now.store(crate::vsched::now(), std::sync::atomic::Ordering::SeqCst);
+            Val::U
+          }
+          "run" => {
+            crate::vsched::run_task(s.a as usize);
+            Val::U
+          }
+          "runall" => {
+            crate::vsched::run_all();
+            Val::U
+          }
+          "fresolve" => {
+            crate::vsched::resolve_future(s.a as usize, s.t.chars().next().unwrap_or('N'), s.v.clone());
+            Val::U
+          }
+          "spush" => {
+            crate::vsched::push_stream(s.a as usize, s.t.chars().next().unwrap_or('N'), s.v.clone());
+            Val::U
+          }
           "bnext" => {
             self.env.behaviors[(s.a - 1) as usize].clone().next(s.v.clone());
             Val::U
@@ -336,16 +369,34 @@ macro_rules! runner {
       fn exec(&mut self, s: &Stim) -> StepObs {
         let sh = self.env.sh.clone();
         let _ = sh.take_log();
+        let _ = crate::vsched::take_requested();
+        let panics0 = PANICS.with(|p| *p.borrow());
         let r = catch_unwind(AssertUnwindSafe(|| self.run(s)));
         let (ret, fault) = match r {
-          Ok(v) => (v, String::new()),
+          Ok(v) => {
+            if PANICS.with(|p| *p.borrow()) != panics0 {
+              // a panic inside a scheduled task: caught by the crate's Remote wrapper, still a fault
+              self.dead = true;
+              let msg = LAST_PANIC.with(|p| p.borrow().clone());
+              (v, classify_panic(&msg))
+            } else {
+              (v, String::new())
+            }
+          }
           Err(_) => {
             self.dead = true;
             let msg = LAST_PANIC.with(|p| p.borrow().clone());
             (Val::U, classify_panic(&msg))
           }
         };
-        StepObs { log: sh.take_log(), ret, fault, cnt: sh.counters() }
+        StepObs {
+          log: sh.take_log(),
+          ret,
+          fault,
+          cnt: sh.counters(),
+          live: crate::vsched::live_tasks(),
+          tm: crate::vsched::take_requested(),
+        }
       }
     }
   };
